@@ -146,7 +146,7 @@ func isArchOrOS(t string) bool {
 
 // checkPartition runs the partition rule and records one obligation per
 // (symbol, assignment).
-func checkPartition(c *Check, rule, relDir string, syms []string) {
+func checkPartition(c *Check, rule, relDir string, syms []string, compilers []string) {
 	dir := filepath.Join(repoDir, relDir)
 	defs, files, err := scanDefs(dir, syms)
 	if err != nil {
@@ -175,7 +175,7 @@ func checkPartition(c *Check, rule, relDir string, syms []string) {
 	}
 	n := 0
 	for _, arch := range archList {
-		for _, comp := range []string{"gc", "gccgo"} {
+		for _, comp := range compilers {
 			for mask := 0; mask < 1<<len(free); mask++ {
 				var tags []string
 				for i, t := range free {
